@@ -162,9 +162,21 @@ def rule_hand_eq(ctx: RuleContext, p: Program, rid: str) -> None:
             raise AnalysisError(f'{c.qualname}: no own _eq()')
         other = fn.params[1]
         e = single_return_expr(fn)
+        conj: list[ast.AST] = []
         if e is None:
-            raise AnalysisError(f'{c.qualname}._eq: not a single return')
-        conj = e.values if isinstance(e, ast.BoolOp) and isinstance(e.op, ast.And) else [e]
+            # guard clauses: `if not A: return False` ... `return B`  ==  A and ... and B
+            body = stmts_no_doc(fn.node.body)
+            for st in body[:-1]:
+                if isinstance(st, ast.If) and not st.orelse and len(st.body) == 1 and isinstance(st.body[0], ast.Return) \
+                        and isinstance(st.body[0].value, ast.Constant) and st.body[0].value.value is False:
+                    t = st.test
+                    conj.append(t.operand if isinstance(t, ast.UnaryOp) and isinstance(t.op, ast.Not) else ast.UnaryOp(op=ast.Not(), operand=t))
+                else:
+                    raise AnalysisError(f'{c.qualname}._eq: neither a single return nor guard clauses followed by a return')
+            if not body or not isinstance(body[-1], ast.Return) or body[-1].value is None:
+                raise AnalysisError(f'{c.qualname}._eq: neither a single return nor guard clauses followed by a return')
+            e = body[-1].value
+        conj += e.values if isinstance(e, ast.BoolOp) and isinstance(e.op, ast.And) else [e]
         compared: set[str] = set()
         inst = False
         problems: list[str] = []
